@@ -243,7 +243,8 @@ class C12(Check):
     LEVEL = "exploration"
     RUNS = {"quick": 3000, "thorough": 60000}
     N_OPS = {"quick": (4, 12), "thorough": (6, 16)}
-    RULE = ("spec_property: 16 option combinations x 4 host kinds x 2 getters; classproperty: cache x cache_per_subclass x "
+    RULE = ("spec_property: 16 option combinations x 5 host kinds (incl. a narrowing subclass whose parent instance shares the "
+            "descriptor) x 2 getters x idempotent / non-idempotent preparer x 4 construction styles; classproperty: cache x cache_per_subclass x "
             "overridable x (plain | spec) over a three-class hierarchy; seeded sequences of <= 16 operations over {read, assign "
             "(conforming / ill-typed), delete, change underlying state} with injected faults in getter / setter / deleter / "
             "preparer; every value or exception compared with the state-machine model. evaluations = operations; "
